@@ -162,31 +162,33 @@ done:
 static int split_dict_left(dict_entry_t *dict, int a, int b, int pos)
 {
     int m = a + (b - a) / 2;
+    int j;
     uint64_t wf = 0, wg = 0, wmf = 0, wmg = 0;
 
-    while (m > a) {
-        get_dict_tag(&dict[m - 1], pos, &wf, &wmf, 0, 0);
-        get_dict_tag(&dict[m], pos, &wg, &wmg, 0, 0);
-        if (((wf ^ wg) & wmf) != 0) {
-            return m;
+    /*
+     * No key left of the split may be a prefix (within the window) of
+     * the key at the split, adjacent or not: `a, a0, a1, a2` must not
+     * split at `a1` because the input `a` is followed by trailing data
+     * that compares either way against `a1`.
+     */
+    get_dict_tag(&dict[m], pos, &wg, &wmg, 0, 0);
+    for (j = a; j < m; ++j) {
+        get_dict_tag(&dict[j], pos, &wf, &wmf, 0, 0);
+        if (((wf ^ wg) & wmf) == 0) {
+            return j;
         }
-        --m;
     }
     return m;
 }
 
 /*
- * When multiple tags are identical after split_dict_left has moved
- * intersection up so a == m, we need to split in the opposite direction
- * to ensure progress untill all tags in the range are identical
- * at which point the trie must descend.
- *
- * If all tags are the same from intersection to end, b + 1 is returned
- * which is not a valid element.
+ * Used when split_dict_left returned `a`: returns the end of the chain
+ * of keys starting at `a` where each key is a prefix (within the
+ * window) of its successor, or b + 1 if the chain covers the range.
  */
 static int split_dict_right(dict_entry_t *dict, int a, int b, int pos)
 {
-    int m = a + (b - a) / 2;
+    int m = a;
     uint64_t wf = 0, wg = 0, wmf = 0, wmg = 0;
 
     while (m < b) {
